@@ -108,11 +108,17 @@ Record kern := {
   (* KroneckerProductLinearOperator (matrix A) from the results of its factors *)
   k_eig_kron : Mat -> bool -> list Val -> Val; (* _symeig (eigenvectors?): Kronecker product of the factors' eigen-decompositions *)
   k_svd_kron : Mat -> list Val -> Val;         (* _svd *)
-  k_chol_kron : Mat -> list Val -> bool -> Val;  (* KroneckerProductTriangularLinearOperator( *chol_factors, upper=upper) *)
+  k_chol_kron : Mat -> list Val -> bool -> bool -> Val;  (* (factors' Cholesky factors, upper, is the result an instance of
+                                      TriangularLinearOperator?): KroneckerProductTriangularLinearOperator( *chol_factors, upper=upper) is not;
+                                      BlockDiag / BatchRepeat wrap theirs in TriangularLinearOperator *)
   k_root_kron : Mat -> list Val -> Val;        (* RootLinearOperator(KroneckerProductLinearOperator( *[r.root for r in roots])) *)
   k_rootinv_kron : Mat -> list Val -> Val;
-  k_iqld_kron : Mat -> option Val -> option Val -> Val   (* (inv_quad term of super().inv_quad_logdet(rhs, logdet=False) | None,
+  k_iqld_kron : Mat -> option Val -> option Val -> Val;  (* (inv_quad term of super().inv_quad_logdet(rhs, logdet=False) | None,
                                                             eigen-decomposition for _logdet | None) |-> (inv_quad, logdet) *)
+  (* BlockDiagLinearOperator / BatchRepeatLinearOperator (matrix A) from a result of the base operator *)
+  k_deleg_lift : Mat -> Val -> Val;            (* self.__class__(base._root_inv_decomposition()) / .repeat(...): inverse-root factor *)
+  k_iqld_deleg : Mat -> Val -> Val;            (* reshaped / summed (inv_quad, logdet) of base_linear_op.inv_quad_logdet *)
+  k_sample_deleg : Mat -> Val -> Val           (* BlockDiag: reshaped base_linear_op.zero_mean_mvn_samples *)
 }.
 
 (* ------------------------------------------------------------------ objects *)
@@ -129,11 +135,28 @@ Record profile := {
   pf_cm_root : option nat;      (* ConstantMul with non-negative constant: root_decomposition delegates to child *)
   pf_precond : bool;            (* AddedDiag: pivoted-Cholesky preconditioner with ad-hoc caches *)
   pf_sum : bool;                (* isinstance(self, SumLinearOperator): add_low_rank rebuilds (and may densify) the sum *)
-  pf_iqld_to : bool             (* CatLinearOperator.inv_quad_logdet: tuple(r.to(self.device) for r in super()...) *)
+  pf_iqld_to : bool;            (* CatLinearOperator.inv_quad_logdet: tuple(r.to(self.device) for r in super()...) *)
+  pf_deleg : option bool        (* with pf_eig = EigKron [c]: NOT a Kronecker product but a class that hands _cholesky / _svd /
+                                   _symeig / inv_quad_logdet / the Lanczos internals to its one base operator c and keeps
+                                   the base-class cached methods: Some true = BlockDiagLinearOperator (also
+                                   zero_mean_mvn_samples), Some false = BatchRepeatLinearOperator *)
 }.
 Definition pf_plain : profile :=
   {| pf_td_name := None; pf_td_kids := []; pf_chol_ignore := false; pf_eig := EigBase; pf_cm_root := None;
-     pf_precond := false; pf_sum := false; pf_iqld_to := false |}.
+     pf_precond := false; pf_sum := false; pf_iqld_to := false; pf_deleg := None |}.
+
+(* the factors of a class with KroneckerProductLinearOperator's overrides of the cached methods *)
+Definition kron_over (p : profile) : option (list nat) :=
+  match pf_deleg p with
+  | Some _ => None
+  | None => match pf_eig p with EigKron l => Some l | _ => None end
+  end.
+(* the base operator of a delegating class *)
+Definition deleg_kid (p : profile) : option nat :=
+  match pf_deleg p, pf_eig p with
+  | Some _, EigKron [c] => Some c
+  | _, _ => None
+  end.
 
 (* three facts about the pinned source that the model depends on and that the harness re-reads from
    linear_operator/operators/_linear_operator.py on every run (gen/SourceFlags.v): they are the defect sites *)
@@ -316,7 +339,8 @@ Fixpoint _cholesky (fuel : nat) (i : nat) (args : list pyv) (kw : kwargs) : H Va
           match fuel with
           | O => raise ValueError
           | S f => cs <- mapM (fun c => cholesky_of (_cholesky f c) [] [("upper", nth 0 p PNone)]) l ;;
-                   ret (k_chol_kron K (o_mat o) cs (truthy (nth 0 p PNone)))
+                   ret (k_chol_kron K (o_mat o) cs (truthy (nth 0 p PNone))
+                                    (match pf_deleg (o_pf o) with Some _ => true | None => false end))
           end
       | _ => lift (k_chol K (o_mat o) (truthy (nth 0 p PNone)))
       end) args kw).
@@ -359,13 +383,13 @@ Definition diagonalization_base (st : settings) (fuel : nat) (i : nat) (o : obj)
 Definition diagonalization (st : settings) (fuel : nat) (i : nat) (args : list pyv) (kw : kwargs) : H Val :=
   with_obj i (fun o =>
     let base_cached := diagonalization_base st fuel i o in
-    match pf_eig (o_pf o) with
-    | EigKron _ =>
+    match kron_over (o_pf o) with
+    | Some _ =>
         (* KroneckerProductLinearOperator.diagonalization (not decorated): if method is None: method = "symeig";
            return super().diagonalization(method=method) *)
         p <- lift (bind_params ["method"] args kw) ;;
         base_cached [] [("method", if is_none (nth 0 p PNone) then PStr "symeig" else nth 0 p PNone)]
-    | _ => base_cached args kw
+    | None => base_cached args kw
     end).
 
 (* @cached(name="root_decomposition") root_decomposition(method=None) *)
@@ -391,8 +415,8 @@ Fixpoint root_decomposition (st : settings) (fuel : nat) (i : nat) (args : list 
           else if String.eqb m "lanczos" then r <- fresh_run ;; ret (k_root_lanczos K (o_mat o) r)
           else raise RuntimeError
       end in
-    match pf_eig (o_pf o) with
-    | EigKron l =>
+    match kron_over (o_pf o) with
+    | Some l =>
         (* KroneckerProductLinearOperator: @cached(name="root_decomposition") override:
            if self.shape[-1] <= max_cholesky_size: return super().root_decomposition(method=method)   (the base method,
            itself cached: a second entry under (name, (), {"method": method}));
@@ -406,7 +430,7 @@ Fixpoint root_decomposition (st : settings) (fuel : nat) (i : nat) (args : list 
                | S f => rs <- mapM (fun c => root_decomposition st f c [] [("method", nth 0 p PNone)]) l ;;
                         ret (k_root_kron K (o_mat o) rs)
                end) args kw
-    | _ =>
+    | None =>
     match pf_cm_root (o_pf o), fuel with
     | Some c, S f =>
         (* ConstantMulLinearOperator: @cached(name="root_decomposition") override, non-negative constant:
@@ -433,9 +457,19 @@ Definition root_inv_base (st : settings) (fuel : nat) (i : nat) (o : obj) : list
         (* initial_vectors is None in every modelled call *)
         if negb (is_none (nth 0 p PNone)) then raise NotImplementedError else
         r <- fresh_run ;;
+        match deleg_kid (o_pf o) with
+        | Some c =>
+            (* BlockDiag / BatchRepeat._root_inv_decomposition: self.base_linear_op._root_inv_decomposition(..): the
+               by-product root is written into the cache of the BASE operator, self gets none *)
+            with_obj c (fun oc =>
+              let '(inv_root, root) := k_rootinv_lanczos K (o_mat oc) r in
+              add_to_cache_m c "root_decomposition" root [] [] ;;;
+              ret (k_wrap_root K (k_deleg_lift K (o_mat o) inv_root)))
+        | None =>
         let '(inv_root, root) := k_rootinv_lanczos K (o_mat o) r in
         (* _root_inv_decomposition: add_to_cache(self, "root_decomposition", RootLinearOperator(roots)) *)
         add_to_cache_m i "root_decomposition" root [] [] ;;; ret (k_wrap_root K inv_root)
+        end
       else if String.eqb m "symeig" then e <- symeig fuel i true ;; ret (k_rootinv_eig K e)
       else if String.eqb m "diagonalization" then e <- diagonalization st fuel i [] [] ;; ret (k_rootinv_eig K e)
       else if String.eqb m "svd" then u <- svd fuel i ;; ret (k_rootinv_svd K u)
@@ -447,8 +481,8 @@ Definition root_inv_body (kids_call : nat -> list pyv -> kwargs -> H Val)
            (st : settings) (fuel : nat) (i : nat) (args : list pyv) (kw : kwargs) : H Val :=
   with_obj i (fun o =>
     let base_cached := root_inv_base st fuel i o in
-    match pf_eig (o_pf o) with
-    | EigKron l =>
+    match kron_over (o_pf o) with
+    | Some l =>
         (* KroneckerProductLinearOperator: @cached(name="root_inv_decomposition") override:
            small: return super().root_inv_decomposition()   (NO arguments are passed on: a known finding; the
            repaired call super().root_inv_decomposition(initial_vectors=.., test_vectors=.., method=..) when the
@@ -461,7 +495,7 @@ Definition root_inv_body (kids_call : nat -> list pyv -> kwargs -> H Val)
                 else base_cached [] [("initial_vectors", nth 0 p PNone); ("test_vectors", nth 1 p PNone);
                                      ("method", nth 2 p PNone)])
           else rs <- mapM (fun c => kids_call c [] []) l ;; ret (k_rootinv_kron K (o_mat o) rs)) args kw
-    | _ => base_cached args kw
+    | None => base_cached args kw
     end).
 
 Fixpoint root_inv_decomposition (st : settings) (fuel : nat) (i : nat) (args : list pyv) (kw : kwargs) : H Val :=
@@ -520,11 +554,27 @@ Definition inv_quad_logdet_base (st : settings) (fuel : nat) (i : nat) (o : obj)
       if negb (o_square o) then raise RuntimeError else
       p <- preconditioner st i ;; ret (k_iqld_cg K (o_mat o) p rhs logdet).
 
-Definition inv_quad_logdet (st : settings) (fuel : nat) (i : nat) (rhs : option nat) (logdet : bool) : H Val :=
+(* kid_call c rhs logdet = inv_quad_logdet of the base operator c (open recursion: tied below) *)
+Definition inv_quad_logdet_body (kid_call : nat -> option nat -> bool -> H Val)
+           (st : settings) (fuel : nat) (i : nat) (rhs : option nat) (logdet : bool) : H Val :=
   with_obj i (fun o =>
     let base := inv_quad_logdet_base st fuel i o in
-    match pf_eig (o_pf o) with
-    | EigKron _ =>
+    match deleg_kid (o_pf o) with
+    | Some c =>
+        (* BlockDiag / BatchRepeat.inv_quad_logdet: self.base_linear_op.inv_quad_logdet(reshaped rhs, logdet), then the
+           two terms are reshaped.  History-independent quirks of the reshaping (no concern of this property, but they
+           decide raised-or-not): when the base operator takes the CG branch, a missing inverse quadratic term makes
+           both classes raise RuntimeError, and BlockDiag's `logdet_res.view( *logdet_res.shape)` on the 0-dim zeros
+           returned for logdet=False raises TypeError *)
+        with_obj c (fun oc =>
+          r <- kid_call c rhs logdet ;;
+          let kid_cg := negb (negb (st_fc_logprob st) || (o_n oc <=? st_max_chol st)) in
+          if kid_cg && (match rhs with None => true | Some _ => false end) then raise RuntimeError
+          else if kid_cg && negb logdet && (match pf_deleg (o_pf o) with Some true => true | _ => false end) then raise TypeError
+          else ret (k_iqld_deleg K (o_mat o) r))
+    | None =>
+    match kron_over (o_pf o) with
+    | Some _ =>
         (* KroneckerProductLinearOperator.inv_quad_logdet:
            inv_quad_term, _ = super().inv_quad_logdet(inv_quad_rhs, logdet=False) if inv_quad_rhs is not None else None
            logdet_term = self._logdet() if logdet else None       (_logdet: evals, _ = self.diagonalization()) *)
@@ -534,8 +584,15 @@ Definition inv_quad_logdet (st : settings) (fuel : nat) (i : nat) (rhs : option 
               end ;;
         ld <- (if logdet then e <- diagonalization st fuel i [] [] ;; ret (Some e) else ret None) ;;
         ret (k_iqld_kron K (o_mat o) iq ld)
-    | _ => base rhs logdet
+    | None => base rhs logdet
+    end
     end).
+
+Fixpoint inv_quad_logdet (st : settings) (fuel : nat) (i : nat) (rhs : option nat) (logdet : bool) : H Val :=
+  inv_quad_logdet_body (match fuel with
+                        | O => fun _ _ _ => raise ValueError
+                        | S f => inv_quad_logdet st f
+                        end) st fuel i rhs logdet.
 
 Definition logdet (st : settings) (fuel : nat) (i : nat) : H Val :=
   r <- inv_quad_logdet st fuel i None true ;; ret (k_snd K r).
@@ -548,11 +605,23 @@ Definition diagonal (i : nat) : H Val :=
   with_obj i (fun o => if negb (o_square o) then raise RuntimeError else ret (k_diagonal K (o_mat o))).
 
 (* zero_mean_mvn_samples *)
-Definition sample (st : settings) (fuel : nat) (i : nat) (noise : nat) : H Val :=
+Definition sample_body (kid_call : nat -> nat -> H Val) (st : settings) (fuel : nat) (i : nat) (noise : nat) : H Val :=
   with_obj i (fun o =>
+    match deleg_kid (o_pf o), pf_deleg (o_pf o) with
+    | Some c, Some true =>
+        (* BlockDiagLinearOperator.zero_mean_mvn_samples: self.base_linear_op.zero_mean_mvn_samples(num_samples), reshaped *)
+        v <- kid_call c noise ;; ret (k_sample_deleg K (o_mat o) v)
+    | _, _ =>
     if st_ciq st then ret (k_sample_ciq K (o_mat o) noise)
     else if (o_n o =? 1) && o_square o then d <- to_dense fuel i ;; ret (k_sample_1x1 K d noise)
-    else r <- root_decomposition st fuel i [] [] ;; ret (k_sample_root K (v_root K r) noise)).
+    else r <- root_decomposition st fuel i [] [] ;; ret (k_sample_root K (v_root K r) noise)
+    end).
+
+Fixpoint sample (st : settings) (fuel : nat) (i : nat) (noise : nat) : H Val :=
+  sample_body (match fuel with
+               | O => fun _ _ => raise ValueError
+               | S f => sample st f
+               end) st fuel i noise.
 
 (* ------------------------------------------------------------------ events *)
 Inductive query :=
